@@ -151,8 +151,27 @@ func (c *Conn) loop(ctx context.Context) {
 	}
 }
 
-func (c *Conn) Send(wantReply bool, payload []byte) ([]byte, error) {
-	ok, resData, err := c.sconn.SendRequest("", wantReply, payload)
+func (c *Conn) Send(ctx context.Context, wantReply bool, payload []byte) ([]byte, error) {
+	// SendRequest cannot be interrupted, so wait for it on the side and give up when the context ends.
+	type result struct {
+		ok   bool
+		data []byte
+		err  error
+	}
+	ch := make(chan result, 1)
+	go func() {
+		ok, resData, err := c.sconn.SendRequest("", wantReply, payload)
+		ch <- result{ok, resData, err}
+	}()
+	var ok bool
+	var resData []byte
+	var err error
+	select {
+	case <-ctx.Done():
+		return nil, ctx.Err()
+	case r := <-ch:
+		ok, resData, err = r.ok, r.data, r.err
+	}
 	if err != nil {
 		return nil, err
 	}
